@@ -19,7 +19,7 @@ from dali.driver import hid as HID, serial as SER
 import contracts.frame as CF
 from specs import gateways as GW
 from checks.c01 import USE as USE0
-from checks.drv_common import abstract_command, bytes_equal
+from checks.drv_common import abstract_command, bytes_equal, Attrs, mk_report, entries, has_key
 from checks.c19 import luba_proto, sci_proto, LUBA, SCI, LS, SS
 
 USE = USE0
@@ -31,6 +31,7 @@ def status_reports(world):
 
 
 def mk_tridonic(ctx, world, **over):
+    interp = world.interp
     sub = (lambda *a: None)
     drv = ctx.new(HID.tridonic, _log=logging.getLogger("x"), _path="/dev/x", _glob=False, _f=7,
                   _reconnect_interval=ctx.int("interval", 0, 3600), _reconnect_limit=None, _reconnect_count=0,
@@ -39,10 +40,11 @@ def mk_tridonic(ctx, world, **over):
                   _outstanding=world.mapping(), _bus_watch_task=None, _bus_watch_data=ctx.track([]),
                   _bus_watch_data_available=world.event(False, "watch"), firmware_version="1.0", serial="0001",
                   transaction_lock=world.lock("transaction"), exceptions_on_send=True)
-    drv.fields["connection_status_callback"] = ctx.new(HID._callback, _parent=drv, _callbacks={1: sub})
-    drv.fields["bus_traffic"] = ctx.new(HID._callback, _parent=drv, _callbacks={})
+    A = Attrs(interp, drv)
+    A["connection_status_callback"] = ctx.new(HID._callback, _parent=drv, _callbacks={1: sub})
+    A["bus_traffic"] = ctx.new(HID._callback, _parent=drv, _callbacks={})
     for k, v in over.items():
-        drv.fields[k] = v
+        A[k] = v
     return drv
 
 
@@ -57,19 +59,17 @@ def units(tier):
     # ------------------------------------------------------------ Tridonic _send_raw: every exit leaves nothing taken
     for mode in ("write-fails", "device-lost-while-waiting", "cancelled"):
         def r_send(ctx, interp, fn, mode=mode):
-            if ctx.native:
-                return
             world = World(ctx, interp, cancel=(mode == "cancelled"), io_faults=(mode == "write-fails"))
             install(interp, world)
             drv = mk_tridonic(ctx, world)
-            seq = drv.fields["_cmd_seq"].value
+            A = Attrs(interp, drv)
+            seq = ctx.int("seq", 1, 255)
             cmd, fr = abstract_command(ctx, 16, ctx.bool("twice"), C.NumericResponse)
-            sem = drv.fields["_command_semaphore"]
-            outstanding = drv.fields["_outstanding"]
+            sem = A["_command_semaphore"]
+            outstanding = A["_outstanding"]
 
             def env(event):
-                targets = [msgs for key, (ev, msgs) in (outstanding.live_entries() if isinstance(outstanding, AssocDict) else [])
-                           if ev is event]
+                targets = [msgs for key, (ev, msgs) in entries(outstanding) if ev is event]
                 if not targets:
                     return
                 if mode == "device-lost-while-waiting":
@@ -81,8 +81,7 @@ def units(tier):
             if out[0] == "blocked":
                 return
             ctx.cover()
-            store = drv.fields["_outstanding"]
-            slot_taken = store.lookup(interp, seq)[0] if isinstance(store, AssocDict) else (seq in store)
+            slot_taken = has_key(interp, A["_outstanding"], seq)
             if mode == "cancelled":
                 if not (out[0] == "raise" and issubclass(out[1], asyncio.CancelledError)):
                     return
@@ -102,17 +101,16 @@ def units(tier):
 
     # ------------------------------------------------------------ _shutdown_device wakes every waiter
     def r_shutdown(ctx, interp, fn):
-        if ctx.native:
-            return
         world = World(ctx, interp)
         install(interp, world)
         e1, e2 = world.event(False, "w1"), world.event(False, "w2")
         m1, m2 = ctx.track([]), ctx.track([])
         task = MTask(world, None)
         drv = mk_tridonic(ctx, world, _outstanding=ctx.track({3: (e1, m1), 200: (e2, m2)}), _bus_watch_task=task)
-        drv.fields["_bus_watch_data"].append(b"x")
-        interp.call(interp.get_attr(drv, "_shutdown_device"), (), {})
+        Attrs(interp, drv)["_bus_watch_data"].append(b"x")
+        out = world.run(HID.tridonic._shutdown_device, drv)
         ctx.cover()
+        ctx.prove("never-raises", out[0] == "return", detail="outcome %r" % (out[:2],))
         ctx.prove("every-waiter-is-told-it-failed", m1 == ["fail"] and m2 == ["fail"] and e1.flag is True and e2.flag is True)
         ctx.prove("no-in-flight-slot-remains", len(drv._outstanding) == 0)
         ctx.prove("watcher-cancelled-and-forgotten", task.cancelled and drv._bus_watch_task is None and len(drv._bus_watch_data) == 0)
@@ -122,14 +120,13 @@ def units(tier):
     # ------------------------------------------------------------ disconnect
     for reconnect in (False, True):
         def r_disc(ctx, interp, fn, reconnect=reconnect):
-            if ctx.native:
-                return
             world = World(ctx, interp)
             install(interp, world)
             old = MTask(world, None)
             drv = mk_tridonic(ctx, world, _reconnect_task=old)
-            interp.call(interp.get_attr(drv, "disconnect"), (), {"reconnect": reconnect})
+            out = world.run(HID.hid.disconnect, drv, reconnect=reconnect)
             ctx.cover()
+            ctx.prove("never-raises", out[0] == "return", detail="outcome %r" % (out[:2],))
             ctx.prove("pending-reconnect-cancelled", old.cancelled)
             ctx.prove("reader-removed-and-device-closed", ("remove_reader", 7) in world.log and ("os.close", 7) in world.log)
             ctx.prove("marked-not-connected", drv._f is None and Not(drv.connected.flag))
@@ -141,8 +138,6 @@ def units(tier):
 
     # ------------------------------------------------------------ _reconnect: interval, limit, 'failed'
     def r_reconnect(ctx, interp, fn):
-        if ctx.native:
-            return
         world = World(ctx, interp)
         install(interp, world)
         limit_kind = ctx.choose_int(ctx.int("limit_kind", 0, 1), "limit kind")
@@ -157,9 +152,9 @@ def units(tier):
         def m_os_open(interp_, path, flags):
             if interp.test(opened):
                 return 9
-            raise RaiseEx(OSError("no such device"))
+            world.throw(OSError, "no such device")
         import os
-        interp.local_function_models[os.open] = m_os_open
+        world.patch(os.open, m_os_open)
         out = world.run(HID.hid._reconnect, drv)
         if out[0] == "blocked":
             return
@@ -187,8 +182,6 @@ def units(tier):
     # ------------------------------------------------------------ reader: EOF or read error -> disconnect with reconnect
     for how in ("eof", "oserror", "data"):
         def r_reader(ctx, interp, fn, how=how):
-            if ctx.native:
-                return
             world = World(ctx, interp)
             install(interp, world)
             drv = mk_tridonic(ctx, world)
@@ -196,13 +189,14 @@ def units(tier):
 
             def m_os_read(interp_, fd, n):
                 if how == "oserror":
-                    raise RaiseEx(OSError("gone"))
+                    world.throw(OSError, "gone")
                 if how == "eof":
                     return b""
-                return SBytes([0x11] + [ctx.fresh_int("r", 0, 255) for _ in range(63)])
-            interp.local_function_models[os.read] = m_os_read
-            interp.call(interp.get_attr(drv, "_reader"), (), {})
+                return mk_report(ctx, [0x11] + [ctx.fresh_int("r", 0, 255) for _ in range(63)])
+            world.patch(os.read, m_os_read)
+            out = world.run(HID.hid._reader, drv)
             ctx.cover()
+            ctx.prove("never-raises", out[0] == "return", detail="outcome %r" % (out[:2],))
             if how == "data":
                 ctx.prove("data-keeps-the-connection", drv._f == 7 and len(drv._bus_watch_data) == 1)
             else:
@@ -212,16 +206,14 @@ def units(tier):
 
     # ------------------------------------------------------------ handshake: version, then serial, then connected
     def r_handshake(ctx, interp, fn):
-        if ctx.native:
-            return
         world = World(ctx, interp)
         install(interp, world)
         drv = mk_tridonic(ctx, world, firmware_version=None, serial=None, connected=world.event(False, "connected"))
-        rep = SBytes([0x01] + [ctx.int("v%d" % i, 0, 255) for i in range(63)])
-        interp.call(interp.get_attr(drv, "_handle_read"), (rep,), {})
+        rep = mk_report(ctx, [0x01] + [ctx.int("v%d" % i, 0, 255) for i in range(63)])
+        world.run(HID.tridonic._handle_read, drv, rep)
         ctx.prove("version-read-then-serial-requested", drv.firmware_version is not None and len(world.writes) == 1
                   and bytes_equal(world.writes[0][1], GW.tridonic_init_report(2)) and Not(drv.connected.flag))
-        interp.call(interp.get_attr(drv, "_handle_read"), (rep,), {})
+        world.run(HID.tridonic._handle_read, drv, rep)
         ctx.cover()
         ctx.prove("serial-read-then-connected", drv.serial is not None and drv.connected.flag is True)
         ctx.prove("watcher-started", any(e[0] == "create_task" and "_bus_watch" in str(e[1]) for e in world.log))
@@ -230,24 +222,24 @@ def units(tier):
     # ------------------------------------------------------------ serial gateways: silence
     for gw in ("luba", "sci"):
         def r_ser(ctx, interp, fn, gw=gw):
-            if ctx.native:
-                return
             world = World(ctx, interp)
             install(interp, world)
             cmd, fr = abstract_command(ctx, 16, ctx.bool("twice"), C.NumericResponse)
             if gw == "luba":
                 proto, kids = luba_proto(ctx, world, LS.WAIT_START, [None] * 24, None, 0)
-                proto.fields["_queue_tx_conf"] = world.queue(
+                P = Attrs(interp, proto)
+                P["_queue_tx_conf"] = world.queue(
                     "txconf", provider=lambda q: q.items.append(LUBA.LubaMsgTxConf(tx_id=1, message=None)))
                 drvcls, tmo_conf, tmo_rx = SER.DriverLubaRs232, SER.DriverLubaRs232.timeout_tx_confirm, SER.DriverLubaRs232.timeout_rx
             else:
                 proto, kids = sci_proto(ctx, world, SS.WAIT_STATUS, [None] * 5)
-                proto.fields["_device_settings"] = SER.DriverSCIRS232.SCIRS232DeviceSettings(True, False, True)
-                proto.fields["_queue_rx_info"] = world.queue(
+                P = Attrs(interp, proto)
+                P["_device_settings"] = SER.DriverSCIRS232.SCIRS232DeviceSettings(True, False, True)
+                P["_queue_rx_info"] = world.queue(
                     "info", provider=lambda q: q.items.append(SER.DriverSCIRS232.SCIRS232DeviceReply(id=0, code=0)))
                 drvcls, tmo_conf, tmo_rx = SER.DriverSCIRS232, SER.DriverSCIRS232.timeout_tx_confirm, SER.DriverSCIRS232.timeout_rx
-            proto.fields["_tx_lock"] = world.lock("tx")
-            proto.fields["transport"] = world.transport()
+            P["_tx_lock"] = world.lock("tx")
+            P["transport"] = world.transport()
             tlock = world.lock("transaction")
             drv = ctx.new(drvcls, _connected=world.event(True, "connected"), transaction_lock=tlock, _protocol=proto)
             out = world.run(drvcls.send, drv, cmd)
@@ -266,6 +258,9 @@ def units(tier):
         unit("serial/%s/send-under-silence" % gw, r_ser)
     return U
 
+
+# checks whose proof units establish the callee contracts applied here (re-verified by this check, see main.dependency_units)
+DEPENDENCIES = ['C04', 'C05']
 
 META = {
     "level": "proof",
